@@ -21,6 +21,10 @@ Definition tol : R := / 10 ^ 300.
 Definition stol : R := / 10 ^ 150.   (* a bound of sqrt(prec) *)
 Definition etol : R := / 10 ^ 13.
 
+(* the threshold of the code itself, prec = 100*DBL_MIN written with 17 significant digits (used only by the statements
+   on the branches taken when |p|, |q| or the discriminant are below it) *)
+Definition prec_code : R := 22250738585072014 / 10 ^ 322.
+
 Definition result (o : option (list R)) (nb x1 x2 x3 : R) : Prop := o = Some [nb; x1; x2; x3].
 
 (* x1,x2,x3 are exactly the three real roots, with multiplicities *)
